@@ -324,7 +324,7 @@ def r18_5(ctx: Ctx) -> None:
                   f"`{norm(j)}` gives up after a fixed time: with a backlog that takes longer (handlers that block briefly, a busy machine) close() raises InternalError or "
                   "returns while the reporter is still delivering, so events arrive after close() and the archive handle is never closed", construct="bounded reporter join")
     # where a bounded join is kept, a reporter that is still alive must at least be an error
-    alive = [c for c in q.calls(f) if attr_tail(c) == "is_alive"]
+    alive = [c for c in q.calls(f) if attr_tail(c) == "is_alive" and any(cfg.reaches(q.node_for(f, j), q.node_for(f, c)) for j in joins)]
     if alive:
         ok = False
         for a in alive:
@@ -359,6 +359,9 @@ def r18_6(ctx: Ctx) -> None:
             nt = q.is_none_test(t.ast)
             if nt is not None and norm(nt[0]) == "self.reporterd":
                 none_edges += [e for e in t.succ if e.kind == ("true" if nt[1] else "false")]
+            # `if self.reporterd.is_alive():` - on the false edge the earlier reporter is dead already
+            if isinstance(t.ast, ast.Call) and attr_tail(t.ast) == "is_alive" and "reporterd" in norm(t.ast):
+                none_edges += [e for e in t.succ if e.kind == "false"]
         stopped = bool(joins) and not cfg.reaches(cfg.entry, an, avoid=[q.node_for(f, j) for j in joins] + none_edges)
         ctx.check(none_known or stopped, "R18.6", f, a, "a new reporter thread is started only when no earlier one is alive",
                   "_extract starts a reporter thread on every call with a callback without stopping the one started by an earlier call: two threads read one queue, close() posts a "
